@@ -24,7 +24,8 @@ func c11(c *Ctx) {
 	c11R3(c)
 	rulePodRequiresRecord(c, "C11.R4")
 	ruleFixedNamePod(c, "C18.R6")
-	ruleSandboxExited(c, "C10.R7")
+	ruleSandboxExited(c, "C10.R9")
+	ruleAnyFixedParks(c, "C11.R5")
 }
 
 func c11R1(c *Ctx) {
